@@ -2,6 +2,7 @@
 import re
 import time
 import z3
+from symex import SOLVER_STATS
 
 from jobmarket import BrokerModel, Market, CAP
 from bmc import Protocol, SysState, NEED_POP, WAITING, HAVE_WORK, DONE, DROPPING, AFTER_WORK
@@ -138,7 +139,10 @@ def _valid(bm, guard_and_claim_negated, extra=()):
     sol.add(*bm.ex.base_constraints)
     sol.add(*extra)
     sol.add(guard_and_claim_negated)
+    _t = time.time()
     r = sol.check()
+    SOLVER_STATS["time"] += time.time() - _t
+    SOLVER_STATS["queries"] += 1
     return r, (sol.model() if r == z3.sat else None)
 
 
